@@ -309,6 +309,18 @@ class RunResult:
             f.seek(max(0, sz - n))
             return f.read().decode("utf-8", "replace")
 
+    def crash_head(self, n=2500):
+        """the part of the output where a fatal error / panic starts (not the goroutine dump at the end)"""
+        t = self.text()
+        best = -1
+        for pat in ("runtime: goroutine stack exceeds", "fatal error:", "panic:", "SIGSEGV", "signal: killed", "out of memory"):
+            i = t.find(pat)
+            if i >= 0 and (best < 0 or i < best):
+                best = i
+        if best < 0:
+            return t[-n:]
+        return t[max(0, best - 200):best + n]
+
     def lines(self):
         with open(self.outfile, "r", errors="replace") as f:
             for l in f:
